@@ -52,4 +52,52 @@ def frac (p d : Rat × Rat) : Rat :=
 /-- the `t`-interval of the image of the segment shifted by `−k` cells along one axis -/
 def axisInt (a δ : Rat) (k : Int) : Rat × Rat := tInt (a - k) δ
 
+/-! ### which periodic images of an edge `plot_edges` draws: `_lines_cross_unit_cell | _line_fully_in_unit_cell` -/
+
+/-- the parameter `t = (l − end)/(start − end)` at which `start·t + (1−t)·end` reaches the wall `l` along one axis; an
+    axis-parallel segment gets `0.5·(l == end)` (the `~isfinite` branch of the code) -/
+def wallT (s e l : Rat) : Rat := if s - e = 0 then (if l = e then 1 / 2 else 0) else (l - e) / (s - e)
+
+/-- one entry of `cross`: the segment reaches wall `l` of axis `a` at `0 < t ≤ 1` and the other coordinate is in `(0, 1]` there -/
+def crossAt (sa ea sb eb l : Rat) : Bool :=
+  let t := wallT sa ea l
+  let other := sb * t + (1 - t) * eb
+  decide (0 < t) && decide (t ≤ 1) && decide (0 < other) && decide (other ≤ 1)
+
+/-- `_lines_cross_unit_cell` for one segment `(start, end)` -/
+def crossesCell (s e : Rat × Rat) : Bool :=
+  crossAt s.1 e.1 s.2 e.2 0 || crossAt s.2 e.2 s.1 e.1 0 || crossAt s.1 e.1 s.2 e.2 1 || crossAt s.2 e.2 s.1 e.1 1
+
+/-- `_line_fully_in_unit_cell` -/
+def fullyInside (s e : Rat × Rat) : Bool :=
+  decide (0 < s.1) && decide (s.1 < 1) && decide (0 < s.2) && decide (s.2 < 1) &&
+  decide (0 < e.1) && decide (e.1 < 1) && decide (0 < e.2) && decide (e.2 < 1)
+
+/-- the mask `vis` of `plot_edges` -/
+def visible (s e : Rat × Rat) : Bool := crossesCell s e || fullyInside s e
+
+/-! ### which periodic images of a plaquette `plot_plaquettes` draws -/
+
+/-- one entry of `_lines_cross_any_cell_boundary`: `0 < t ≤ 1` -/
+def crossLine (sa ea l : Rat) : Bool :=
+  let t := wallT sa ea l
+  decide (0 < t) && decide (t ≤ 1)
+
+/-- consecutive pairs `(points[i], points[i+1])` of the closed polygon (`zip(points, roll(points, −1))`) -/
+def cyclicPairs {α : Type} : List α → List (α × α)
+  | [] => []
+  | x :: xs => (x :: (xs ++ [x])).zip (xs ++ [x])
+
+/-- `partially_inside[l][axis]`: some side of the polygon crosses the line `axis = l` -/
+def polyCrosses (pts : List (Rat × Rat)) (axis : Bool) (l : Rat) : Bool :=
+  (cyclicPairs pts).any fun se => if axis then crossLine se.1.2 se.2.2 l else crossLine se.1.1 se.2.1 l
+
+/-- `padx` (axis = false) resp. `pady`: −1 if the line `1` is crossed, 0 always, +1 if the line `0` is crossed -/
+def pads (pts : List (Rat × Rat)) (axis : Bool) : List Int :=
+  (if polyCrosses pts axis 1 then [-1] else []) ++ [0] ++ (if polyCrosses pts axis 0 then [1] else [])
+
+/-- the offsets of the drawn copies, `itertools.product(padx, pady)` -/
+def polyOffsets (pts : List (Rat × Rat)) : List (Int × Int) :=
+  (pads pts false).flatMap fun dx => (pads pts true).map fun dy => (dx, dy)
+
 end Plot
